@@ -62,10 +62,12 @@ func arrKeys(arr *Term) []string {
 		}
 	}
 	var walk func(t *Term, depth int)
+	visited := map[int]bool{}
 	walk = func(t *Term, depth int) {
-		if depth > 64 {
+		if depth > 64 || len(out) >= 6 || visited[t.id] {
 			return
 		}
+		visited[t.id] = true
 		switch t.op {
 		case "select":
 			if t.args[0].sort.isArray() {
